@@ -29,6 +29,15 @@ def main(argv=None) -> int:
         mod.run(ctx, env)
         return finish(ctx, mod.EXPLANATION, mod.RULE_TEXT, env.repo.digests())
     except AnalysisError as e:
+        # a violation that was already established stays a violation, whatever could not be analysed afterwards
+        from .report import load_known
+        known = {(k["property"], k["rule"], k["key"]) for k in load_known().get("known", [])}
+        if any(not o.ok and (prop, o.rule, o.key) not in known for o in ctx.obligations):
+            print(f"NOTE property={prop} analysis incomplete: {e}")
+            try:
+                return finish(ctx, getattr(mod, "EXPLANATION", "") + " [analysis incomplete: " + str(e) + "]", getattr(mod, "RULE_TEXT", ""), env.repo.digests())
+            except Exception:
+                pass
         return analysis_error(prop, args.tier, seed, str(e), getattr(e, "where", ""))
     except ModuleNotFoundError as e:
         if e.name and e.name.startswith("sa.props."):
